@@ -29,6 +29,22 @@ def inventory(ctx):
         "raw store sites changed: %s %s" % (sorted(raw_keys), counts))
 
 
+def line_reader(text):
+    """the harness's own reader of a generated file, independent of the repository's parser: one physical line per header / entry"""
+    secs, garbage = [], []
+    for ln in text.split("\n"):
+        if ln.strip() == "":
+            continue
+        if ln.startswith("[") and ln.endswith("]"):
+            secs.append((ln[1:-1], []))
+        elif "=" in ln and secs and not ln.startswith("["):
+            k, v = ln.split("=", 1)
+            secs[-1][1].append((k, v))
+        else:
+            garbage.append(ln)
+    return secs, garbage
+
+
 def to_text(sections):
     return "".join("[%s]\n%s\n" % (n, "".join("%s=%s\n" % (k, v) for k, v in es)) for n, es in sections)
 
@@ -98,6 +114,9 @@ def run(ctx):
             text += gen_units.render(rng, ok, False) if ok else ""
         if rng.random() < 0.05:
             text += "[Service]\nExecStartPre=\\\n  /bin/true\n"      # a user value that starts with blanks (via a continuation)
+        if rng.random() < 0.05:
+            # header left unclosed on its line, closed later: must not become a section name that spans lines
+            text += rng.choice(["[X-Meta\nExecStartPre=/bin/evil\n]\nK=v\n", "[Service\nExecStart=/bin/evil\nX=]\n", "[A\n]\n"])
         path = "/d/%s.%s" % (rng.choice(names), typ)
         work.append((typ, path, text, used))
     outs = vlib.run_impl([case_line("convert", "0", p, t) for _, p, t, _ in work])
@@ -117,6 +136,16 @@ def run(ctx):
     for (i, rec), b in zip(idx, backs):
         t = b.split("\t")
         back = vlib.parse_unit_tokens(t, 1)[0] if t[0] == "OK" else None
+        # independent line reader: every section header and every entry is exactly one physical line, nothing else is in the file
+        lsecs, garbage = line_reader(to_text(rec["sections"]))
+        want = [(n, [(k, v.strip(" \t")) for k, v in es]) for n, es in rec["sections"]]
+        got = [(n, [(k, v.strip(" \t")) for k, v in es]) for n, es in lsecs]
+        if garbage or got != want:
+            typ, path, text, used = work[i]
+            ctx.failures.append({"op": "convert+linereader", "unit": show(text), "path": show(path), "case_hex": case_line("convert", "0", path, text),
+                                 "what": "read line by line, the generated service is not what was generated: stray lines %s; sections %s vs generated %s" % (garbage[:3], [n for n, _ in got], [n for n, _ in want]),
+                                 "class": None})
+            continue
         if back != rec["sections"]:
             typ, path, text, used = work[i]
             diff = None
